@@ -186,7 +186,7 @@ def step (cfg : Cfg) (w : World) (st : State) (r : Req) : World × State × Out 
   | .openDir raw =>
     let p := cleanRequest raw
     match openRO cfg w p with
-    | none => (w, st, ⟨openDirResult false, false⟩)
+    | none => (w, { st with cwd := none }, ⟨openDirResult false, false⟩)   -- the active directory is closed first, whatever follows
     | some (.dir q) => (w, { st with cwd := some ⟨q, p, none⟩ }, ⟨openDirResult true, false⟩)
     | some _ => (w, { st with cwd := none }, ⟨openDirResult false, false⟩)
   | .readDirEntry | .readDirEntryV2 =>
@@ -386,7 +386,7 @@ def ledgerEv (cfg : Cfg) (w : World) (st : State) (r : Req) : Nat × Nat :=
   match r with
   | .openDir raw =>
     match openRO cfg w (PathStr.cleanRequest raw) with
-    | none => (0, 0)
+    | none => (0, had st.cwd.isSome)
     | some (.dir _) => (1, had st.cwd.isSome)
     | some _ => (1, 1 + had st.cwd.isSome)      -- opened, found not to be a directory, closed again
   | .readDirEntry | .readDirEntryV2 =>
